@@ -9,6 +9,7 @@
 (*   UserSpaceImpl.on_inherit (per space, cells then refs)  space.py:1836  *)
 (*   SpaceManager.new_cells / del_cells / set_cells_property               *)
 (*                new_ref / change_ref / del_ref     model.py:1344-1533    *)
+(*   SpaceUpdater.new_space / del_defined_space, SpaceManager.rename_cells *)
 (*   SharedSpaceOperations._can_add / _find_name_in_subs   1220-1249       *)
 (* including the guards that reject an edit.  The property layer (MxProps  *)
 (* DefsLabels) compares the materialised members with the derivation from  *)
@@ -275,6 +276,58 @@ DelRef(op) ==
        ELSE Done(op, "ok", Kill(UpdateSpaces([M EXCEPT !.rm[s] = Drop(@, {n})],
                                              <<s>> \o SubsOrdered(M.bases, s))))
 
+\* SpaceUpdater.del_defined_space, model.py:1812-1845: the space and its child tree
+\* leave the graph (so every base list loses them), the sub spaces of the removed
+\* spaces are re-derived bases first, references to removed objects go dead
+SubtreeOf(MM, p) == {t \in MM.sp : Len(t) >= Len(p) /\ SubSeq(t, 1, Len(p)) = p}
+DelSpace(op) ==
+    /\ Idle /\ op.op = "del_space"
+    /\ LET p == op.p IN
+       IF p \notin M.sp THEN Done(op, "rejected", M)
+       ELSE LET gone == SubtreeOf(M, p)
+                keep == M.sp \ gone
+                subs == (UNION {Subs(M.bases, g) : g \in gone}) \ gone
+                bs   == [t \in keep |-> SelectSeq(M.bases[t], LAMBDA b : b \notin gone)]
+                M1   == [M EXCEPT !.sp = keep, !.bases = bs,
+                                  !.cm = [t \in keep |-> M.cm[t]], !.rm = [t \in keep |-> M.rm[t]]]
+            IN Done(op, "ok", Kill(UpdateSpaces(Kill(M1), TopoSeq(bs, subs, <<>>))))
+
+\* EditableParentImpl.new_space -> SpaceUpdater.new_space (+ add_bases when bases are given):
+\* name test against the parent's namespace, then the guards of add_bases for the new space
+NewSpace(op) ==
+    /\ Idle /\ op.op = "new_space"
+    /\ LET p == op.p
+           par == Front(p)
+           bsq == IF "bases" \in DOMAIN op THEN op.bases ELSE <<>>
+           taken == IF Len(par) = 0
+                    THEN DOMAIN M.grefs \cup {Last(t) : t \in {u \in M.sp : Len(u) = 1}}
+                    ELSE NamespaceOf(M, par)
+           M0 == [M EXCEPT !.sp = @ \cup {p},
+                           !.bases = [t \in M.sp \cup {p} |-> IF t = p THEN bsq ELSE M.bases[t]],
+                           !.cm = [t \in M.sp \cup {p} |-> IF t = p THEN <<>> ELSE M.cm[t]],
+                           !.rm = [t \in M.sp \cup {p} |-> IF t = p THEN <<>> ELSE M.rm[t]]]
+       IN
+       IF \/ p \in M.sp \/ (Len(par) > 0 /\ par \notin M.sp) \/ Last(p) \in taken
+          \/ ~(Range(bsq) \subseteq M.sp) \/ p \in Range(bsq)
+       THEN Done(op, "rejected", M)
+       ELSE IF \/ MroB(M0.bases, p) = Fail \/ Conflict(M0, M0.bases, p) \/ RelOutOfScope(M0, M0.bases, p)
+       THEN Done(op, "rejected", M)
+       ELSE Done(op, "ok", Kill(UpdateSpaces(M0, <<p>>)))
+
+\* SpaceManager.rename_cells, model.py:1344-1369: only a defined cells, onto a name that
+\* is free in the space and in every sub; the object lives on under the new name (so
+\* references to it follow), derived copies in subs are deleted and derived anew
+RenameCells(op) ==
+    /\ Idle /\ op.op = "rename_cells"
+    /\ LET s == op.s  c == op.c  c2 == op.c2 IN
+       IF c \notin DOMAIN M.cm[s] \/ M.cm[s][c].derived \/ ~CanAddCells(M, s, c2)
+       THEN Done(op, "rejected", M)
+       ELSE LET Rn(v) == IF v = CeObj(s, <<>>, c) THEN CeObj(s, <<>>, c2) ELSE v
+                M1 == [M EXCEPT !.cm[s] = Upd(Drop(@, {c}), c2, M.cm[s][c]),
+                                !.rm = [t \in DOMAIN @ |-> [n \in DOMAIN @[t] |->
+                                          [@[t][n] EXCEPT !.v = Rn(@), !.dv = Rn(@)]]]]
+            IN Done(op, "ok", Kill(UpdateSpaces(M1, SubsOrdered(M.bases, s))))
+
 -----------------------------------------------------------------------------
 MOfInit(j) ==
     LET D0 == DefsOf(j) IN
@@ -292,9 +345,18 @@ Init ==
           /\ hist = <<[op |-> "init", id |-> i]>>
     /\ last = [op |-> [op |-> "init"], res |-> "ok"]
 
+\* an operation naming a space (or object) that no longer exists cannot even be issued
+SpacesOK(op) ==
+    /\ ("s" \in DOMAIN op => op.s \in M.sp)
+    /\ ("bs" \in DOMAIN op => Range(op.bs) \subseteq M.sp)
+    /\ (op.op = "set_ref" => ~Dangling(M, op.v))
+
 Next == \E i \in 1..Len(AllOps) : LET op == AllOps[i] IN
+            IF ~SpacesOK(op) THEN Idle /\ Done(op, "rejected", M)
+            ELSE
             AddBases(op) \/ RemoveBases(op) \/ NewCells(op) \/ DelCells(op)
             \/ SetFormula(op) \/ SetRef(op) \/ DelRef(op)
+            \/ DelSpace(op) \/ NewSpace(op) \/ RenameCells(op)
 
 Spec == Init /\ [][Next]_vars
 
